@@ -127,23 +127,30 @@ def make_invariant(framer, stream, ref):
         client, pos, emitted, exc, lastcut = st
         if exc:
             return ("%s:exception:%s" % (framer, exc), {"pos": pos})
-        n = len(emitted)
-        for i, e in enumerate(emitted):
-            if i >= len(ref):
+        # match what was emitted against the reference frame list, in order; frames marked optional (unassigned formats,
+        # length contradicting the format) may be skipped by the framer, but whatever is emitted must be a reference frame
+        j = 0
+        nreq = 0
+        for e in emitted:
+            while j < len(ref) and ref[j]["msg"] != e[0] and ref[j].get("optional"):
+                j += 1
+            if j >= len(ref):
                 return ("%s:safety:extra_or_duplicated_frame" % framer, {"pos": pos, "emitted": list(emitted)})
-            if e[0] != ref[i]["msg"]:
-                kind = "truncated_or_merged_frame" if (e[0] in ref[i]["msg"] or ref[i]["msg"] in e[0] or len(e[0]) != len(ref[i]["msg"])) else "corrupted_frame"
-                if any(e[0] == r["msg"] for r in ref[i + 1:]):
+            if e[0] != ref[j]["msg"]:
+                kind = "truncated_or_merged_frame" if (e[0] in ref[j]["msg"] or ref[j]["msg"] in e[0] or len(e[0]) != len(ref[j]["msg"])) else "corrupted_frame"
+                if any(e[0] == r["msg"] for r in ref[j + 1:]):
                     kind = "frame_lost"
                 return ("%s:safety:%s" % (framer, kind), {"pos": pos, "emitted": list(emitted), "expected": [r["msg"] for r in ref]})
-            if framer == "skysense" and abs(e[1] - ref[i]["ts"]) > 1e-9:
+            if framer == "skysense" and abs(e[1] - ref[j]["ts"]) > 1e-9:
                 return ("skysense:safety:wrong_timestamp", {"pos": pos})
-        must = sum(1 for r in ref if r["lenient"] <= pos)
-        may = sum(1 for r in ref if r["end"] <= pos)
-        if n < must:
-            return ("%s:progress:complete_frame_not_delivered" % framer, {"pos": pos, "emitted": n, "complete": must})
-        if n > may:
-            return ("%s:safety:frame_delivered_before_complete" % framer, {"pos": pos})
+            if ref[j]["end"] > pos:
+                return ("%s:safety:frame_delivered_before_complete" % framer, {"pos": pos})
+            if not ref[j].get("optional"):
+                nreq += 1
+            j += 1
+        must = sum(1 for r in ref if r["lenient"] <= pos and not r.get("optional"))
+        if nreq < must:
+            return ("%s:progress:complete_frame_not_delivered" % framer, {"pos": pos, "emitted": nreq, "complete": must})
         return None
     return inv
 
@@ -286,6 +293,11 @@ def ns_run(seq, batching, cls="net", clock="float"):
             list(zip(src.local_buffer_adsb_msg, src.local_buffer_adsb_ts))
         got_b = [(m, ts) for d in pipe.sent for m, ts in zip(d["commb_msg"], d["commb_ts"])] + \
             list(zip(src.local_buffer_commb_msg, src.local_buffer_commb_ts))
+        # only DF17/18 and DF20/21 messages are covered by the statement: whether messages of other formats are passed on
+        # as well is not constrained, so they are filtered out of what was forwarded before comparing
+        dfof = lambda m: int(m[:2], 16) >> 3      # noqa: E731
+        got_a = [x for x in got_a if dfof(x[0]) in (17, 18)]
+        got_b = [x for x in got_b if dfof(x[0]) in (20, 21)]
         if got_a != handed_a:
             return "netsource:adsb_lost_duplicated_or_reordered"
         if got_b != handed_b:
@@ -376,6 +388,19 @@ def run_loop(datatype, stream, cuts, idle=(), empty=()):
     return got
 
 
+def delivered_ok(got, ref, n):
+    """end-of-stream comparison for the run-loop harness: `got` must be the reference frames in order, each once, where
+    frames marked optional may be missing; every non-optional frame that is complete after n bytes must be there."""
+    j = 0
+    for g in got:
+        while j < len(ref) and ref[j]["msg"] != g and ref[j].get("optional"):
+            j += 1
+        if j >= len(ref) or ref[j]["msg"] != g:
+            return False
+        j += 1
+    return all(r.get("optional") or r["lenient"] > n for r in ref[j:])
+
+
 def cuts_to_chunks(stream, cuts):
     out, pos = [], 0
     for k in cuts:
@@ -394,7 +419,8 @@ def w_runloop(arg):
     acc.cov["transitions"] = 0
     for names in names_list:
         stream = [b for nm in names for b in alpha[nm]] + term
-        want = [r["msg"] for r in reffn(stream)]
+        refl = reffn(stream)
+        want = [r["msg"] for r in refl]
         N = len(stream)
         segs = [[N]] + [[k] for k in range(1, N)] + [[1] * N] + [[3] * (N // 3)] + [[k, 1] for k in range(1, N - 1, 2)]
         for cuts in segs:
@@ -407,7 +433,7 @@ def w_runloop(arg):
                 tag = ":with_receive_timeouts" if idle else ":with_empty_reads" if empty else ""
                 if isinstance(got, tuple):
                     acc.bad("%s:run_loop:exception:%s%s" % (framer, got[1], tag), {"kind": "runloop", "framer": framer, "stream": bytes(stream).hex(), "cuts": cuts, "idle": list(idle), "empty": list(empty)})
-                elif got != want:
+                elif not delivered_ok(got, refl, N):
                     acc.bad("%s:run_loop:delivered_messages_differ_from_reference%s" % (framer, tag),
                             {"kind": "runloop", "framer": framer, "stream": bytes(stream).hex(), "cuts": cuts, "idle": list(idle), "empty": list(empty), "got": got, "want": want})
         acc.out.add(("runloop", framer, names))
@@ -456,11 +482,11 @@ def replay(case):
     if case["kind"] == "runloop":
         stream = list(bytes.fromhex(case["stream"]))
         got = run_loop(case["framer"], stream, case["cuts"], tuple(case.get("idle", ())), tuple(case.get("empty", ())))
-        want = [r["msg"] for r in FRAMERS[case["framer"]][3](stream)]
+        refl = FRAMERS[case["framer"]][3](stream)
         tag = ":with_receive_timeouts" if case.get("idle") else ":with_empty_reads" if case.get("empty") else ""
         if isinstance(got, tuple):
             return [("%s:run_loop:exception:%s%s" % (case["framer"], got[1], tag), case)]
-        return [("%s:run_loop:delivered_messages_differ_from_reference%s" % (case["framer"], tag), case)] if got != want else []
+        return [("%s:run_loop:delivered_messages_differ_from_reference%s" % (case["framer"], tag), case)] if not delivered_ok(got, refl, len(stream)) else []
     if case["kind"] == "netsource":
         ck = case.get("clock", "float")
         s = ns_run(tuple(case["seq"]), tuple(case["batching"]), case.get("cls", "net"), ck)
